@@ -1,13 +1,19 @@
 /-
-C19 — a statement that is FALSE as originally written, kept verbatim as a `Prop` together with a
-machine-checked refutation.  The closest true statement is `C19_complete_is_ok_partial2` in
-`Vet/Props/C19.lean` (extra hypothesis `srcDir.length + 2 < 64`).
+C19 — statements that are FALSE as originally written, kept verbatim as `Prop`s together with
+machine-checked refutations.  The closest true statement is `C19_complete_is_ok_partial3` in
+`Vet/Props/C19.lean` (extra hypotheses `srcDir.length + 2 < 64` and "after unpacking, the marker
+path is not a directory").
 
 Reason: `canon` (the model of `canonicalize`) runs on fuel 64, one unit per path component plus one.
 `hcanon : canon fs 64 [] srcDir = some srcDir` only forces `srcDir.length ≤ 63`; the completion
 marker lives two components deeper, so for a source directory 62 (or 63) components deep
 `fetchIsOk` cannot resolve the marker path and answers `false` even after a complete unpack.
 Witness: a chain of 62 nested directories named 7, crate 1, empty archive.
+
+Second statement (`C19_complete_is_ok_partial2_stmt`, the first one plus `srcDir.length + 2 < 64`):
+false since `writeThrough` models EISDIR.  An entry `<crate>/.cargo-ok/4` is not the archive's own
+marker entry; unpacking it makes `<crate>/.cargo-ok` a directory, so the marker cannot be written
+and `fetchIsOk` answers `false` after a complete unpack.  Witness: `cache0`, crate 1, that archive.
 -/
 import Vet.Props.C19
 namespace Vet.Unpack
@@ -36,6 +42,22 @@ theorem C19_complete_is_ok_false : ¬ C19_complete_is_ok_stmt := by
   intro h
   have := h (chain 62) (List.replicate 62 7) 1 [] (by simp) (chain_noLinks _ _)
     (by decide +kernel) (by decide +kernel) rfl
+  revert this
+  decide +kernel
+
+def C19_complete_is_ok_partial2_stmt : Prop :=
+  ∀ (fs : FS) (srcDir : Path) (prefix_ : Nat) (archive : List Entry)
+    (_hnl : ∀ e ∈ archive, isLink e = false) (_hfs : NoLinksUnder fs srcDir)
+    (_hsrc : lookup fs srcDir = some .dir) (_hcanon : canon fs 64 [] srcDir = some srcDir)
+    (_hlen : srcDir.length + 2 < 64)
+    (_hall : (unpackEntries (set (removeTree fs (srcDir ++ [prefix_])) (srcDir ++ [prefix_]) .dir)
+      srcDir prefix_ archive archive.length).2 = true),
+    fetchIsOk (unpackPackage fs srcDir prefix_ archive none) srcDir prefix_ = true
+
+theorem C19_complete_is_ok_partial2_false : ¬ C19_complete_is_ok_partial2_stmt := by
+  intro h
+  have := h cache0 [9, 5] 1 [⟨[.normal 1, .normal 0, .normal 4], .file 40⟩] (by decide +kernel)
+    cache0_noLinks (by decide +kernel) (by decide +kernel) (by decide +kernel) (by decide +kernel)
   revert this
   decide +kernel
 
